@@ -146,6 +146,7 @@ def rename_to_attr(rng, vs):
                     sp.parents = [new if t == old else t for t in sp.parents]
                     if a == new:
                         if (len(sp.parents) == 1 and sp.wrap is None and (getattr(sp, "identity", False) or c.family == "Gamma" and p.kind == "pos")
+                                and (p.kind == "pos" or p.dim > 1)      # (a 1-dim Laplace/Normal location given as a bare scalar: family territory, see round 4)
                                 and rng.random() < 0.5 and not getattr(sp, "mats", None)):
                             sp.none = True          # the variable itself: attribute None
                             sp.fn = (lambda x: x) if p.kind != "pos" else (lambda s: float(np.asarray(s).reshape(-1)[0]))
@@ -1350,7 +1351,21 @@ def run_programs(ctx, cuqi, indices, thorough, with_corpus=True):
         ctx.case(f"program:{p.shape}" + (":ill-formed" if p.desc.get("ill_formed") else ""), {**p.desc, "calls": p.tokens}, nontrivial)
         mrecs = out.split(";")
         fail_by_rec = {}
+        confirmed = None
         for (key, d, want, got, what) in p.fails:
+            if key.startswith("retained:object") and isinstance(p.idx, int):
+                # a failure must be replayable: re-run the same program; a deviation of a retained object that does not
+                # recur on the identical program is recorded as a note, not reported (no concrete failing input to show)
+                if confirmed is None:
+                    p2 = Program(cuqi, random.Random(f"C01-{ctx.seed}-{p.idx}"), thorough, p.idx)
+                    try:
+                        p2.run()
+                        confirmed = {f[0] for f in p2.fails}
+                    except Exception:  # noqa
+                        confirmed = set()
+                if key not in confirmed:
+                    ctx.note(f"program {p.idx}: {key} (demanded {want}, got {got}) did not recur when the identical program was re-run; not reported")
+                    continue
             ctx.fail(key, d, want, got, what)
             fail_by_rec.setdefault(d.get("record"), key)
         if out == "bad-op" or len(mrecs) != len(p.impl):
